@@ -44,6 +44,14 @@ theorem source_process_connect_locked : Gen.C06.facts.processConnectLocked = tru
 theorem source_single_consumer :
     Gen.C06.facts.goroutines = ["process"] ∧ "process" ∈ Gen.C06.facts.queueConsumers := by decide
 
+/-- the queue starts no goroutine of its own (a helper left waiting in `Get` would be a second consumer
+    that nobody sends for), and nothing resets a buffered writer: bufio's sticky error is what makes a
+    connection final after a failed write (`C06.dead_connection_is_final`) -/
+theorem source_queue_has_no_helper_and_no_writer_reset :
+    Gen.C06.facts.queueGoStmts = 0 ∧
+    Call.bufReset ∉ Gen.C06.facts.flush ++ Gen.C06.facts.send ++ Gen.C06.facts.sendDirect ++ Gen.C06.facts.process ++
+      Gen.C06.facts.connect ++ Gen.C06.facts.close ++ Gen.C06.facts.applyConfig := by decide
+
 /-! ### interpreted obligations -/
 
 /-- the transcribed sendDirect (with the transcribed send()), executed against any environment,
